@@ -1,0 +1,150 @@
+//go:build verif
+
+// Verification hooks for the eviction bookkeeping (build tag "verif"): the goroutines that
+// getValues, setValues and setExpiry start to update the eviction caches are counted, can be parked
+// until the harness releases them (one at a time, in the order they were started), and can be
+// waited for. The caches and the volatile-key index can be dumped.
+
+package sugardb
+
+import (
+	"fmt"
+	"sort"
+	"strings"
+	"sync"
+	"time"
+)
+
+type verifCacheSched struct {
+	mu       sync.Mutex
+	cond     *sync.Cond
+	park     bool   // goroutines wait for their turn
+	next     uint64 // next ticket to hand out
+	released uint64 // tickets below this may run (park mode)
+	serving  uint64 // lowest ticket that has not finished (park mode)
+	pending  int    // started and not finished
+	gap      time.Duration // pause of a released goroutine before it runs (park mode)
+}
+
+var verifCacheScheds sync.Map // *SugarDB -> *verifCacheSched
+
+func (server *SugarDB) verifSched() *verifCacheSched {
+	if v, ok := verifCacheScheds.Load(server); ok {
+		return v.(*verifCacheSched)
+	}
+	s := &verifCacheSched{}
+	s.cond = sync.NewCond(&s.mu)
+	v, _ := verifCacheScheds.LoadOrStore(server, s)
+	return v.(*verifCacheSched)
+}
+
+// verifCacheSpawn is called (with the store lock held) just before a cache-update goroutine starts.
+func (server *SugarDB) verifCacheSpawn() uint64 {
+	s := server.verifSched()
+	s.mu.Lock()
+	defer s.mu.Unlock()
+	t := s.next
+	s.next++
+	s.pending++
+	return t
+}
+
+// verifCacheEnter is the first thing a cache-update goroutine does; what it returns is deferred.
+func (server *SugarDB) verifCacheEnter(ticket uint64) func() {
+	s := server.verifSched()
+	s.mu.Lock()
+	for s.park && !(ticket < s.released && ticket == s.serving) {
+		s.cond.Wait()
+	}
+	gap := s.gap
+	parked := s.park
+	s.mu.Unlock()
+	if parked && gap > 0 {
+		time.Sleep(gap)
+	}
+	return func() {
+		s.mu.Lock()
+		s.pending--
+		if ticket >= s.serving {
+			s.serving = ticket + 1
+		}
+		s.cond.Broadcast()
+		s.mu.Unlock()
+	}
+}
+
+// VerifCachePark switches parking of the cache-update goroutines on or off; a released goroutine
+// pauses for gap before it runs, which keeps the millisecond stamps of successive updates apart.
+func (server *SugarDB) VerifCachePark(on bool, gap time.Duration) {
+	s := server.verifSched()
+	s.mu.Lock()
+	s.park = on
+	s.gap = gap
+	if !on {
+		s.released = s.next
+	}
+	s.cond.Broadcast()
+	s.mu.Unlock()
+}
+
+// VerifCacheQuiesce releases every parked cache-update goroutine (they run one after the other in
+// the order they were started) and waits until none is left. It reports false when they have not
+// all finished within the time given.
+func (server *SugarDB) VerifCacheQuiesce(limit time.Duration) bool {
+	s := server.verifSched()
+	deadline := time.Now().Add(limit)
+	stop := time.AfterFunc(limit, func() { s.mu.Lock(); s.cond.Broadcast(); s.mu.Unlock() })
+	defer stop.Stop()
+	s.mu.Lock()
+	defer s.mu.Unlock()
+	s.released = s.next
+	s.cond.Broadcast()
+	for s.pending > 0 {
+		if time.Now().After(deadline) {
+			return false
+		}
+		s.cond.Wait()
+		s.released = s.next
+	}
+	return true
+}
+
+// VerifCachePending reports how many cache-update goroutines have been started and not finished.
+func (server *SugarDB) VerifCachePending() int {
+	s := server.verifSched()
+	s.mu.Lock()
+	defer s.mu.Unlock()
+	return s.pending
+}
+
+// VerifCacheDump renders, per database, the LRU heap (key@stamp in slice order), the LFU heap
+// (key#count@added in slice order) and the keys each cache has recorded.
+func (server *SugarDB) VerifCacheDump() string {
+	server.storeLock.RLock()
+	defer server.storeLock.RUnlock()
+	dbs := make([]int, 0, len(server.store))
+	for db := range server.store {
+		dbs = append(dbs, db)
+	}
+	sort.Ints(dbs)
+	var sb strings.Builder
+	for i, db := range dbs {
+		if i > 0 {
+			sb.WriteString(" ")
+		}
+		fmt.Fprintf(&sb, "db%d", db)
+		if c := server.lruCache.cache[db]; c != nil {
+			c.Mutex.Lock()
+			ents, keys := c.VerifDump()
+			c.Mutex.Unlock()
+			fmt.Fprintf(&sb, " lru[%s]k[%s]", strings.Join(ents, ","), strings.Join(keys, ","))
+		}
+		if c := server.lfuCache.cache[db]; c != nil {
+			c.Mutex.Lock()
+			ents, keys := c.VerifDump()
+			c.Mutex.Unlock()
+			fmt.Fprintf(&sb, " lfu[%s]k[%s]", strings.Join(ents, ","), strings.Join(keys, ","))
+		}
+	}
+	return sb.String()
+}
